@@ -12,6 +12,7 @@ import (
 	"strings"
 	"sync/atomic"
 	"time"
+	"unicode/utf8"
 
 	"github.com/semihalev/twig"
 )
@@ -70,6 +71,54 @@ type Case struct {
 	Expect Expect          `json:"expect"`
 	Cfg    Cfg             `json:"cfg"`
 	Rel    string          `json:"rel"` // "" | "same": all runs must agree with each other
+	Aux    json.RawMessage `json:"aux"` // copied into every observation record (for TLC trace validation)
+}
+
+// Observation: what the implementation did for one run of one case; validated by
+// a TLC trace spec (code -> spec direction).
+type Observation struct {
+	Prop   string          `json:"prop"`
+	Label  string          `json:"label"`
+	Ok     bool            `json:"ok"`
+	Out    []int           `json:"out"`
+	Kind   string          `json:"kind"`
+	Counts map[string]int  `json:"counts"`
+	Aux    json.RawMessage `json:"aux"`
+}
+
+var obsWriter *bufio.Writer
+
+// codePoints converts output bytes to the spec's text encoding
+func codePoints(s string) []int {
+	out := make([]int, 0, len(s))
+	for i := 0; i < len(s); {
+		r, n := utf8.DecodeRuneInString(s[i:])
+		if r == utf8.RuneError && n <= 1 {
+			out = append(out, -int(s[i]))
+			i++
+			continue
+		}
+		out = append(out, int(r))
+		i += n
+	}
+	return out
+}
+
+func recordObs(c *Case, r *Run, o *obs) {
+	if obsWriter == nil {
+		return
+	}
+	aux := c.Aux
+	if len(aux) == 0 {
+		aux = json.RawMessage("{}")
+	}
+	rec := Observation{Prop: c.Prop, Label: r.Label, Ok: o.ok, Out: codePoints(o.out), Kind: o.kind, Counts: o.counts, Aux: aux}
+	if rec.Counts == nil {
+		rec.Counts = map[string]int{}
+	}
+	b, _ := json.Marshal(rec)
+	obsWriter.Write(b)
+	obsWriter.WriteByte('\n')
 }
 
 type Fail struct {
@@ -375,6 +424,7 @@ func checkCase(c *Case, limit time.Duration) (res Result, hung bool) {
 			}
 		}
 		o := renderRunTimed(c, r, rctx, limit)
+		recordObs(c, r, &o)
 		fail := func(why, got, want string) {
 			res.Pass = false
 			all := []string{}
@@ -454,6 +504,18 @@ func checkCase(c *Case, limit time.Duration) (res Result, hung bool) {
 func cmdReplay(args []string) {
 	limit := 5 * time.Second
 	for i := 0; i < len(args); i++ {
+		if args[i] == "-obs" && i+1 < len(args) {
+			f, err := os.Create(args[i+1])
+			if err != nil {
+				fmt.Fprintln(os.Stderr, "harness:", err)
+				os.Exit(2)
+			}
+			defer f.Close()
+			obsWriter = bufio.NewWriterSize(f, 1<<20)
+			defer obsWriter.Flush()
+			i++
+			continue
+		}
 		if args[i] == "-limit" && i+1 < len(args) {
 			d, err := time.ParseDuration(args[i+1])
 			if err == nil {
@@ -492,6 +554,9 @@ func cmdReplay(args []string) {
 			os.Exit(2)
 		}
 		if hung {
+			if obsWriter != nil {
+				obsWriter.Flush()
+			}
 			w.Flush()
 			os.Exit(3) // a goroutine is stuck in the engine; the orchestrator restarts a worker
 		}
